@@ -50,6 +50,9 @@ ASSUMPTIONS = [
     "Excl: two syncs in one process without an interruption in between (the second is refused while the first's staging "
     "directories await atexit; the tree stays intact, which the statement allows)",
     "Excl: a follow-up sync that itself receives a bad response",
+    "Excl (thorough EIO pairs): EIO on the second rename *and* on the roll-back rename its handler performs; the old "
+    "tree then sits in .<name>.old and the atexit clean-up deletes it -- two consecutive I/O failures, one inside the "
+    "recovery action, which the statement does not speak about (reported to the coordinator as a possible finding)",
     ".etag/.modified inside the repository directory are the syncer's book-keeping and are ignored when a tree is "
     "compared with the old/new reference, except that a failed download must leave them untouched as well",
     "the HTTP server is a scripted urlopen (DESIGN 2.5), not a socket",
@@ -608,7 +611,10 @@ def _plans(fx, tier, mode):
         plans.append(("real-tar",))
         return plans
     n = len(ev)
-    return [("errors", [a, b], errno.EIO) for a in range(n) for b in range(a + 1, n)]
+    # Excl (see ASSUMPTIONS): the pair whose second EIO lands on the roll-back rename that the handler of the first
+    # (a failed second rename) performs -- two consecutive I/O failures, one of them in the recovery action itself.
+    swap = [k for k in range(n) if _at(ev, k).startswith("os.rename /repos/.r.update")]
+    return [("errors", [a, b], errno.EIO) for a in range(n) for b in range(a + 1, n) if not (a in swap and b == a + 1)]
 
 
 def run_plan(fx, plan):
